@@ -97,12 +97,12 @@ func checkC02(c C02Case, r *Rec) *Violation {
 		// (d) the other ways of expressing the same subset give the same program
 		// (one of the six alternative spellings per mask, rotating with the case, so
 		// that every spelling meets every mask many times per run)
-		alt := int((hash64(src) + uint64(mask)) % 6)
+		alt := int((hash64(src) + uint64(mask)) % (2 + directiveVariants))
 		how, variant := HowMapSparse, 0
 		switch alt {
 		case 1:
 			how = HowOptionFn
-		case 2, 3, 4, 5:
+		case 2, 3, 4, 5, 6, 7:
 			how, variant = HowDirective, alt-2
 		}
 		{
